@@ -222,7 +222,22 @@ func (h *handler) Handle(ctx context.Context) {
 		}
 	}
 
-	wg.Wait()
+	// The receiver may be blocked dispatching into the scheduler's queue,
+	// which is no longer consumed: keep discarding until both goroutines are
+	// gone.
+	done := make(chan struct{})
+	go func() {
+		wg.Wait()
+		close(done)
+	}()
+	for {
+		select {
+		case <-done:
+			return
+
+		case <-h.consumer.Messages():
+		}
+	}
 }
 
 func (h *handler) send(protoMsg hwebsocket.ProtoMsg) {
